@@ -628,7 +628,7 @@ fn cmd_check(prop_s: &str, tier: &str) -> i32 {
         let (min_s, min_v, stats) = if f.violation.signature == "uncontrolled:process" {
             (f.scenario.clone(), f.violation.clone(), minimize::MinStats::default())
         } else {
-            minimize::minimise(prop, &f.scenario, &f.violation, th, 120.0)
+            minimize::minimise(prop, &f.scenario, &f.violation, th, env_u64("VERIF_MIN_BUDGET_S").unwrap_or(120) as f64)
         };
         let path = match write_replay(prop, seed, tier, f, &min_s, &min_v, &stats) {
             Ok(p) => p,
